@@ -1,7 +1,7 @@
 """Shared by C01/C02/C04/C12: compare the model's LP with the code's, evaluate reported allocations."""
 import math
 import numpy as np
-from lib import lpinst, wire
+from lib import lpinst, wire, pipeline
 from lib.wire import f2b, enc_str, Reader
 
 ROW_TOL = 1e-6        # CBC primal tolerance (relative to the row's own magnitude)
@@ -114,3 +114,73 @@ def tie_instance(ctx, run, k, s, tag):
             ctx.disagree("%s:floor-row %s" % (tag, name), case, "code: " + what, "model row " + name)
         ctx.count("floor-rows-compared", len(floor))
     return inp, enc, diffs
+
+
+class _Abort(Exception):
+    pass
+
+
+FLAG_KEYS = ["ADD_SEAWEED", "ADD_OUTDOOR_GROWING", "ADD_STORED_FOOD", "ADD_MEAT", "ADD_METHANE_SCP", "ADD_CELLULOSIC_SUGAR", "STORE_FOOD_BETWEEN_YEARS"]
+
+
+def flag_variant_ties(ctx, run, k, s, tag, nvar=2):
+    """row builders under flag combinations that the scenario options never produce: the captured constants of a real solve with one or
+    two resource switches flipped (and the storage regime toggled), rows built by the REAL Optimizer (no solve) and compared with the
+    model's rows for the same inputs.  Combinations the real code itself rejects are counted and skipped."""
+    import contextlib, copy, io
+    from src.optimizer.optimizer import Optimizer
+    opt0 = s.opt
+    for _ in range(nvar):
+        keys = ctx.rng.sample(FLAG_KEYS, ctx.rng.choice([1, 1, 2]))
+        C, T = copy.deepcopy(opt0.consts_for_optimizer), copy.deepcopy(opt0.time_consts)
+        for key in keys:
+            C[key] = not C[key]
+            if key in C.get("inputs", {}):
+                C["inputs"][key] = C[key]
+        if not any(C[f] for f in FLAG_KEYS[:6] if f != "ADD_MEAT"):
+            ctx.count("flag-variant:skipped-no-allocatable-resource")
+            continue
+        cap = {}
+        orig = Optimizer.run_optimizations_on_constraints
+
+        def ro(self, model, variables, consts, optimization_type):
+            cap["rows"] = pipeline._snap_rows(model)
+            cap["opt"] = self
+            raise _Abort()
+        Optimizer.run_optimizations_on_constraints = ro
+        err = None
+        try:
+            with contextlib.redirect_stdout(io.StringIO()):
+                o = Optimizer(C, T)
+                if s.kind == "to_humans":
+                    o.optimize_to_humans(C, T)
+                else:
+                    o.optimize_feed_to_animals(C, T, T["min_human_food_consumption"])
+        except _Abort:
+            pass
+        except BaseException as e:
+            if isinstance(e, KeyboardInterrupt):
+                raise
+            err = "%s: %s" % (type(e).__name__, str(e)[:80])
+        finally:
+            Optimizer.run_optimizations_on_constraints = orig
+        label = "+".join("%s=%s" % (key, C[key]) for key in keys)
+        if err or "rows" not in cap:
+            ctx.count("flag-variant:rejected-by-the-code:" + (err or "?").split(":")[0])
+            continue
+        s2 = pipeline.Solve()
+        s2.kind, s2.opt, s2.rows, s2.z, s2.final_rows = s.kind, cap["opt"], cap["rows"], None, None
+        run2 = type("R", (), {"iso": run.iso, "opts": dict(run.opts, _flag_variant=label)})()
+        try:
+            lpinst.inp_from_optimizer(s2.opt, s2.kind)
+        except NotImplementedError:
+            pass
+        except (TypeError, KeyError, ValueError, AttributeError) as e:   # a switch turned ON for which this run carries no data
+            ctx.count("flag-variant:inputs-not-available:" + type(e).__name__)
+            continue
+        tied = tie_instance(ctx, run2, k, s2, tag + ":flag-variant")
+        ctx.count("flag-variant:tied")
+        ctx.count("flag-variant-branch:" + label)
+        if tied is not None:
+            ctx.case((run.iso, sorted((a, str(b)) for a, b in run.opts.items()), k, label), nontrivial=True,
+                     sample={"country": run.iso, "round": k + 1, "kind": s.kind, "flag_variant": label, "rows": len(cap["rows"]), "rows_differing": len(tied[2])})
